@@ -5,13 +5,18 @@ import os, sys, hashlib
 sys.path.insert(0, os.path.join(os.path.dirname(os.path.abspath(__file__)), "lib"))
 import vcheck
 
-TOOLS = {  # name -> (extract .v, extracted module, extra ocamlfind packages)
-    "lex": ("Extract/LexExtract.v", "lexmodel", []),
+# name -> (extract .v, extracted module name, driver source relative to /verif)
+# Generic tools extract `entry : json -> json` into "model.ml" and use ocaml/common/driver.ml.
+GENERIC = "ocaml/common/driver.ml"
+TOOLS = {
+    "lex": ("Extract/LexExtract.v", "lexmodel", "ocaml/lex/driver.ml"),
+    "echo": ("Extract/EchoExtract.v", "model", GENERIC),
 }
 
 
 def build(name):
-    ev, mod, pkgs = TOOLS[name]
+    ev, mod, driver = TOOLS[name]
+    pkgs = []
     d = os.path.join(vcheck.BUILD, "ocaml", name)
     os.makedirs(d, exist_ok=True)
     exe = os.path.join(vcheck.BUILD, "bin", name + "_model")
@@ -25,7 +30,7 @@ def build(name):
                 os.remove(os.path.join(vcheck.COQ, ev[:-2] + ext))
             except FileNotFoundError:
                 pass
-        srcs = [os.path.join(d, mod + ".mli"), os.path.join(d, mod + ".ml"), os.path.join(vcheck.VERIF, "ocaml", name, "driver.ml")]
+        srcs = [os.path.join(d, mod + ".mli"), os.path.join(d, mod + ".ml"), os.path.join(vcheck.VERIF, driver)]
         h = hashlib.sha256()
         for p in srcs:
             with open(p, "rb") as f:
